@@ -268,6 +268,8 @@ inductive ConnStmt where
   | connClose                     -- `this.conn.Close()`
   | assignConnNil                 -- `this.conn = nil`
   | retIfConnNil                  -- Close(): `if this.conn == nil { return nil }`
+  | unknown                       -- conn / wr changed in a way the model does not have (under another
+                                  -- condition, `wr` assigned something else than a new writer, …)
   deriving DecidableEq, Repr
 
 /-- effect of a transcribed Connect / Close body on (conn, wr, connections made so far) -/
@@ -280,6 +282,7 @@ def interpConn : List ConnStmt → (dialOk : Bool) → (Option Nat × Option Nat
   | .assignWrNew :: rest, ok, (c, _, n) => interpConn rest ok (c, some n, n + 1)
   | .connClose :: rest, ok, st => interpConn rest ok st
   | .assignConnNil :: rest, ok, (_, w, n) => interpConn rest ok (none, w, n)
+  | .unknown :: _, _, (_, _, n) => (some (n + 1000000), none, 0)      -- agrees with no model transition
 
 /-- what the model does for Connect (the guard `conn = none` of its connect actions, `connectNew`) -/
 def modelConnect (dialOk : Bool) (st : Option Nat × Option Nat × Nat) : Option Nat × Option Nat × Nat :=
